@@ -15,6 +15,9 @@
                                (`Latex.supportedBlocks`) implies `Pred.noHtmlBlocks`
   * `parse_noHtml`, `C08_parsed_no_raw`, `C08_every_text_no_raw` : with raw-HTML processing disabled the
                                output consists solely of the renderer's own tags and escaped text
+  * `NoRaw.parse_noHtml_general`, `C08_parsed_no_raw_general`, `C08_every_text_no_raw_general` : the same for EVERY
+                               configuration whose lists contain neither `.htmlBlock` nor `.htmlSpan` (the analogue
+                               of Parts 2-4 of Proofs/LatexTotal.lean with only these two hypotheses)
 -/
 import Mistletoe.Props.C08
 import Mistletoe.Proofs.DocShape
@@ -198,6 +201,489 @@ theorem htmlNoRaw_parse_noHtml (cfg : Document.Cfg) (hc : Config.htmlNoRaw = som
 
 end Mistletoe.HtmlEndToEnd
 
+namespace Mistletoe.NoRaw
+open Mistletoe Mistletoe.Pred Mistletoe.Block Mistletoe.Inline
+
+/-! ## The general statement: no HtmlSpan class, no HtmlBlock class ⇒ no such token at any depth
+
+  The analogue of Parts 2–4 of Proofs/LatexTotal.lean with the weakest hypotheses: only `HtmlSpan` is
+  required absent from the span list and only `HtmlBlock` from the block list (BlankLine,
+  LinkReferenceDefinitionBlock, GithubWiki, Math, the XWiki macro tokens may be installed). -/
+
+theorem inlineCodeOf_nohtml (s : Str) (m : InlineScan.CodeM) : noHtmlInline (inlineCodeOf s m) = true := by
+  unfold inlineCodeOf
+  simp only
+  split <;> rfl
+
+mutual
+theorem build_nohtml (s : Str) (found : List Found) (hf : ∀ f ∈ found, f.cls ≠ .htmlSpan) :
+    ∀ (o : Span.Out), noHtmlInline (build s found o) = true
+  | .raw a b => by simp [build, noHtmlInline]
+  | .tok c kids => by
+    have ih := builds_nohtml s found hf kids
+    simp only [build]
+    split
+    · rfl
+    · rename_i f hfe
+      have hc := hf f (List.mem_of_getElem? hfe)
+      split
+      all_goals first
+        | rfl
+        | exact ih
+        | exact inlineCodeOf_nohtml s _
+        | (split <;> first | exact ih | rfl)
+        | (rename_i hcls _; exact absurd hcls hc)
+        | (rename_i hcls; exact absurd hcls hc)
+theorem builds_nohtml (s : Str) (found : List Found) (hf : ∀ f ∈ found, f.cls ≠ .htmlSpan) :
+    ∀ (os : List Span.Out), noHtmlInlines (builds s found os) = true
+  | [] => rfl
+  | o :: os => by
+    simp only [builds, noHtmlInlines, Bool.and_eq_true]
+    exact ⟨build_nohtml s found hf o, builds_nohtml s found hf os⟩
+end
+
+/-- **`tokenize_inner` under a span-token list without HtmlSpan returns no HtmlSpan token**, at any depth -/
+theorem tokenizeInner_nohtml (types : List STok) (ht : STok.htmlSpan ∉ types)
+    (fn : Footnotes.Table) (s : Str) (ks : List Inline) (h : tokenizeInner types fn s = .ok ks) :
+    noHtmlInlines ks = true := by
+  unfold tokenizeInner at h
+  split at h
+  · cases h
+  · rename_i found hfound
+    cases h
+    apply builds_nohtml
+    intro f hf
+    have key : ∀ (cr : Res (List Core.CoreM × List InlineScan.CodeM)),
+        (match cr with
+          | .err e => (Res.err e : Res (List Found))
+          | .ok (core, codes) => .ok (types.flatMap (findOne s core codes))) = .ok found → f.cls ≠ .htmlSpan := by
+      intro cr hcr
+      split at hcr
+      · cases hcr
+      · cases hcr
+        obtain ⟨t, htm, hft⟩ := List.mem_flatMap.mp hf
+        rw [Contrib.findOne_cls _ _ _ t f hft]
+        intro e; subst e; exact ht htm
+    exact key _ hfound
+
+mutual
+/-- no HtmlBlock entry, at any nesting depth -/
+def EntryNH : Entry → Prop
+  | .blockCode _ _ _ => True
+  | .heading _ _ _ _ _ => True
+  | .quote inner _ _ _ => EntriesNH inner
+  | .codeFence _ _ _ _ _ _ _ => True
+  | .thematicBreak _ _ _ => True
+  | .list items _ _ => ItemsNH items
+  | .table _ _ _ _ => True
+  | .footnote _ _ _ => True
+  | .linkRefDefs _ _ _ => True
+  | .paragraph _ _ _ => True
+  | .setext _ _ _ => True
+  | .htmlBlock _ _ _ => False
+  | .blankLine _ _ => True
+def EntriesNH : List Entry → Prop
+  | [] => True
+  | e :: es => EntryNH e ∧ EntriesNH es
+def ItemNH : Item → Prop
+  | .mk inner _ _ _ _ _ _ => EntriesNH inner
+def ItemsNH : List Item → Prop
+  | [] => True
+  | i :: is => ItemNH i ∧ ItemsNH is
+end
+
+theorem entriesNH_append : ∀ (a b : List Entry), EntriesNH a → EntriesNH b → EntriesNH (a ++ b)
+  | [], _, _, hb => by simpa using hb
+  | x :: xs, b, ha, hb => by
+    simp only [List.cons_append, EntriesNH] at ha ⊢
+    exact ⟨ha.1, entriesNH_append xs b ha.2 hb⟩
+
+theorem entriesNH_reverse : ∀ (a : List Entry), EntriesNH a → EntriesNH a.reverse
+  | [], _ => by simp [EntriesNH]
+  | x :: xs, h => by
+    simp only [EntriesNH] at h
+    rw [List.reverse_cons]
+    exact entriesNH_append _ _ (entriesNH_reverse xs h.2) (by simp [EntriesNH, h.1])
+
+theorem itemsNH_append : ∀ (a b : List Item), ItemsNH a → ItemsNH b → ItemsNH (a ++ b)
+  | [], _, _, hb => by simpa using hb
+  | x :: xs, b, ha, hb => by
+    simp only [List.cons_append, ItemsNH] at ha ⊢
+    exact ⟨ha.1, itemsNH_append xs b ha.2 hb⟩
+
+theorem itemsNH_reverse : ∀ (a : List Item), ItemsNH a → ItemsNH a.reverse
+  | [], _ => by simp [ItemsNH]
+  | x :: xs, h => by
+    simp only [ItemsNH] at h
+    rw [List.reverse_cons]
+    exact itemsNH_append _ _ (itemsNH_reverse xs h.2) (by simp [ItemsNH, h.1])
+
+def TokNH (cfg : Block.Cfg) (gas : Nat) : Prop :=
+  ∀ (lines : List Line) (start : Nat) (st : St) (b : Buf) (st' : St),
+    tokenizeBlock cfg gas lines start st = .ok (b, st') → EntriesNH b.entries
+
+def LoopNH (cfg : Block.Cfg) (gas : Nat) : Prop :=
+  ∀ (fw : FW) (st : St) (acc : List Entry) (loose : Bool) (b) (st'),
+    tokLoop cfg gas fw st acc loose = .ok (b, st') → EntriesNH acc → EntriesNH b.entries
+
+def TryNH (cfg : Block.Cfg) (gas : Nat) : Prop :=
+  ∀ (fw : FW) (st : St) (l : Line) (ts : List BTok) (e : Entry) (fw' : FW) (st' : St),
+    tryTypes cfg gas fw st l ts = .ok (some (e, fw', st')) → .htmlBlock ∉ ts → EntryNH e
+
+def ListNH (cfg : Block.Cfg) (gas : Nat) : Prop :=
+  ∀ (fw : FW) (st : St) (ld) (nm) (acc : List Item) (r),
+    readList cfg gas fw st ld nm acc = .ok r → ItemsNH acc → ItemsNH r.1
+
+theorem list_nh (cfg : Block.Cfg) (gas : Nat) (hT : TokNH cfg gas) (hL : ListNH cfg gas) : ListNH cfg (gas + 1) := by
+  intro fw st ld nm acc r h hacc
+  have hstop : ∀ (items : List Item) (fwEnd : FW) (stEnd : St) (rr : List Item × FW × St), ItemsNH items →
+      (Res.ok ((match items with
+        | .mk inner loose i p l n g :: rest => Item.mk inner (decide (inner.length > 1) && loose) i p l n g :: rest
+        | [] => []).reverse, fwEnd, stEnd) : Res _) = .ok rr → ItemsNH rr.1 := by
+    intro items fwEnd stEnd rr hi he
+    cases he
+    cases items with
+    | nil => simp [ItemsNH]
+    | cons x xs =>
+      cases x
+      simp only [ItemsNH, ItemNH] at hi
+      refine itemsNH_reverse _ ?_
+      simp only [ItemsNH, ItemNH]
+      exact hi
+  simp only [readList] at h
+  split at h
+  · exact hstop acc _ _ r hacc h
+  split at h
+  · cases h
+  · rename_i il hil
+    have key : ∀ (item : Item) (itemLeader : Str) (next : Option (Nat × Nat × Str × Str)) (fw' : FW) (st' : St),
+        (match il with
+          | .empty ind pre ldr ln og next fw' => (Res.ok (Item.mk [] true ind pre ldr ln og, ldr, next, fw', st) : Res _)
+          | .lines buf cstart ind pre ldr ln og next fw' =>
+            match tokenizeBlock cfg gas buf cstart st with
+            | .err e => .err e
+            | .ok (b, st') => .ok (Item.mk b.entries b.loose ind pre ldr ln og, ldr, next, fw', st'))
+          = .ok (item, itemLeader, next, fw', st') → ItemNH item := by
+      intro item itemLeader next fw' st' he
+      cases il with
+      | empty ind pre ldr ln og nx fwx =>
+        simp only at he; cases he
+        trivial
+      | lines buf cstart ind pre ldr ln og nx fwx =>
+        simp only at he
+        split at he
+        · cases he
+        · rename_i b stb hb
+          cases he
+          exact hT _ _ _ _ _ hb
+    split at h
+    · cases h
+    · rename_i item itemLeader next fw' st' hres
+      have hkw := key item itemLeader next fw' st' hres
+      have hacc' : ItemsNH (item :: acc) := ⟨hkw, hacc⟩
+      split at h
+      · split at h
+        · exact hstop _ _ _ r hacc' h
+        · exact hL _ st' _ _ _ r h hacc'
+      · split at h
+        · exact hstop _ _ _ r hacc' h
+        · exact hL _ st' _ _ _ r h hacc'
+
+theorem try_nh (cfg : Block.Cfg) (gas : Nat) (hT : TokNH cfg gas) (hL : ListNH cfg gas) (hY : TryNH cfg gas) :
+    TryNH cfg (gas + 1) := by
+  intro fw st l ts e fw' st' h hhb
+  cases ts with
+  | nil => simp [tryTypes] at h
+  | cons t ts =>
+    have hhb' : .htmlBlock ∉ ts := fun hm => hhb (List.mem_cons_of_mem _ hm)
+    have ih := fun fw2 st2 (h2 : tryTypes cfg gas fw2 st2 l ts = .ok (some (e, fw', st'))) =>
+      hY fw2 st2 l ts e fw' st' h2 hhb'
+    unfold tryTypes at h
+    cases t <;> simp only at h
+    · -- htmlBlock
+      exact absurd (List.mem_cons_self ..) hhb
+    · -- blockCode
+      split at h
+      · cases h; trivial
+      · exact ih fw st h
+    · -- heading
+      split at h
+      · cases h; trivial
+      · exact ih fw st h
+    · -- quote
+      split at h
+      · split at h
+        · cases h
+        · split at h
+          · cases h
+          · rename_i b stb hb
+            cases h
+            exact hT _ _ _ _ _ hb
+      · exact ih fw st h
+    · -- codeFence
+      split at h
+      · cases h; trivial
+      · exact ih fw st h
+    · -- thematicBreak
+      split at h
+      · cases h; trivial
+      · exact ih fw st h
+    · -- list
+      split at h
+      · split at h
+        · cases h
+        · rename_i items fwl stl hrl
+          cases h
+          exact hL fw st none none [] _ hrl trivial
+      · exact ih fw st h
+    · -- table
+      split at h
+      · split at h
+        · cases h; trivial
+        · exact ih fw st h
+      · exact ih fw st h
+    · -- footnote
+      split at h
+      · split at h
+        · cases h
+        · split at h
+          · exact ih _ _ h
+          · cases h; trivial
+      · exact ih fw st h
+    · -- paragraph
+      split at h
+      · split at h
+        · cases h
+        · cases h; trivial
+        · cases h; trivial
+      · exact ih fw st h
+    · -- blankLine
+      split at h
+      · cases h; trivial
+      · exact ih fw st h
+    · -- linkRefDefBlock
+      split at h
+      · split at h
+        · cases h
+        · split at h
+          · exact ih _ _ h
+          · cases h; trivial
+      · exact ih fw st h
+
+theorem loop_nh (cfg : Block.Cfg) (hhb : .htmlBlock ∉ cfg.types)
+    (gas : Nat) (hY : TryNH cfg gas) (hP : LoopNH cfg gas) : LoopNH cfg (gas + 1) := by
+  intro fw st acc loose b st' h hacc
+  simp only [tokLoop] at h
+  split at h
+  · cases h; exact entriesNH_reverse acc hacc
+  · rename_i l hp
+    split at h
+    · cases h
+    · rename_i e fw2 st2 ht
+      exact hP fw2 st2 _ loose b st' h ⟨hY fw st l cfg.types e fw2 st2 ht hhb, hacc⟩
+    · exact hP fw.next st acc true b st' h hacc
+
+theorem tok_nh (cfg : Block.Cfg) (gas : Nat) (hP : LoopNH cfg gas) : TokNH cfg (gas + 1) := by
+  intro lines start st b st' h
+  simp only [tokenizeBlock] at h
+  exact hP _ _ _ _ _ _ h trivial
+
+theorem all_nh (cfg : Block.Cfg) (hhb : .htmlBlock ∉ cfg.types) :
+    ∀ (gas : Nat), TokNH cfg gas ∧ LoopNH cfg gas ∧ TryNH cfg gas ∧ ListNH cfg gas
+  | 0 => by
+    refine ⟨?_, ?_, ?_, ?_⟩
+    · intro lines start st b st' h; simp [tokenizeBlock] at h
+    · intro fw st acc loose b st' h; simp [tokLoop] at h
+    · intro fw st l ts e fw' st' h; simp [tryTypes] at h
+    · intro fw st ld nm acc r h; simp [readList] at h
+  | gas + 1 => by
+    obtain ⟨hT, hP, hY, hL⟩ := all_nh cfg hhb gas
+    exact ⟨tok_nh cfg gas hP, loop_nh cfg hhb gas hY hP, try_nh cfg gas hT hL hY, list_nh cfg gas hT hL⟩
+
+/-- **a block-token list without HtmlBlock yields a buffer without HtmlBlock entries**, at every depth -/
+theorem blockPhase_nh (cfg : Block.Cfg) (hhb : .htmlBlock ∉ cfg.types)
+    (gas : Nat) (lines : List Str) (b : Buf) (st : St) (h : blockPhase cfg gas lines = .ok (b, st)) : EntriesNH b.entries :=
+  (all_nh cfg hhb gas).1 _ 1 {} b st h
+
+/-- the hypothesis on the inline phase (discharged by `tokenizeInner_nohtml`) -/
+def InlNH (cfg : Document.Cfg) (fn : Footnotes.Table) : Prop :=
+  ∀ (s : Str) (ks : List Inline), Document.inl cfg fn s = .ok ks → noHtmlInlines ks = true
+
+theorem tableRow_go_nh (cfg : Document.Cfg) (fn : Footnotes.Table) (hinl : InlNH cfg fn) (ln : Nat) :
+    ∀ (zs : List (Option Str × Option Nat)) (cs : List Mistletoe.Block),
+      Document.tableRow.go cfg fn ln zs = .ok cs → noHtmlBlocks cs = true
+  | [], cs, h => by simp only [Document.tableRow.go] at h; cases h; rfl
+  | (c, a) :: rest, cs, h => by
+    simp only [Document.tableRow.go] at h
+    split at h
+    · cases h
+    · rename_i kids hk
+      split at h
+      · cases h
+      · rename_i more hm
+        cases h
+        simp only [noHtmlBlocks, noHtmlBlock, Bool.and_eq_true]
+        exact ⟨hinl _ _ hk, tableRow_go_nh cfg fn hinl ln rest more hm⟩
+
+theorem tableRow_nh (cfg : Document.Cfg) (fn : Footnotes.Table) (hinl : InlNH cfg fn)
+    (line : Str) (al : List (Option Nat)) (ln : Nat) (r : Mistletoe.Block)
+    (h : Document.tableRow cfg fn line al ln = .ok r) : noHtmlBlock r = true := by
+  unfold Document.tableRow at h
+  simp only at h
+  split at h
+  · cases h
+  · rename_i cs hcs
+    cases h
+    simp only [noHtmlBlock]
+    exact tableRow_go_nh cfg fn hinl ln _ cs hcs
+
+theorem tableRows_nh (cfg : Document.Cfg) (fn : Footnotes.Table) (hinl : InlNH cfg fn) :
+    ∀ (ls : List Str) (al : List (Option Nat)) (ln : Nat) (rs : List Mistletoe.Block),
+      Document.tableRows cfg fn ls al ln = .ok rs → noHtmlBlocks rs = true
+  | [], _, _, rs, h => by simp only [Document.tableRows] at h; cases h; rfl
+  | l :: rest, al, ln, rs, h => by
+    simp only [Document.tableRows] at h
+    split at h
+    · cases h
+    · rename_i r hr
+      split at h
+      · cases h
+      · rename_i more hm
+        cases h
+        simp only [noHtmlBlocks, Bool.and_eq_true]
+        exact ⟨tableRow_nh cfg fn hinl l al ln r hr, tableRows_nh cfg fn hinl rest al (ln + 1) more hm⟩
+
+mutual
+theorem mkBlock_nh (cfg : Document.Cfg) (fn : Footnotes.Table) (hinl : InlNH cfg fn) :
+    ∀ (e : Entry), EntryNH e → ∀ (b : Mistletoe.Block), Document.mkBlock cfg fn e = .ok (some b) → noHtmlBlock b = true
+  | .blockCode ls ln og, _, b, h => by simp only [Document.mkBlock] at h; cases h; rfl
+  | .heading lvl content closing ln og, _, b, h => by
+    simp only [Document.mkBlock] at h
+    split at h
+    · cases h
+    · rename_i kids hk; cases h; exact hinl _ _ hk
+  | .quote inner lo ln og, hc, b, h => by
+    simp only [Document.mkBlock] at h
+    split at h
+    · cases h
+    · rename_i kids hk
+      cases h
+      simp only [noHtmlBlock]
+      exact mkBlocks_nh cfg fn hinl inner (by simpa [EntryNH] using hc) kids hk
+  | .codeFence ls p ld info lang ln og, _, b, h => by simp only [Document.mkBlock] at h; cases h; rfl
+  | .thematicBreak line ln og, _, b, h => by simp only [Document.mkBlock] at h; cases h; rfl
+  | .list items ln og, hc, b, h => by
+    simp only [Document.mkBlock] at h
+    split at h
+    · cases h
+    · rename_i its hits
+      have hi := mkItems_nh cfg fn hinl items (by simpa [EntryNH] using hc) its hits
+      split at h
+      · cases h
+      · cases h
+        simp only [noHtmlBlock]
+        exact hi
+  | .table lines sl ln og, _, b, h => by
+    simp only [Document.mkBlock] at h
+    split at h
+    · rename_i l0 l1 rest
+      split at h
+      · split at h
+        · cases h
+        · rename_i align hal
+          split at h
+          · cases h
+          · rename_i header hh
+            split at h
+            · cases h
+            · rename_i rows hr
+              cases h
+              have hH := tableRow_nh cfg fn hinl _ _ _ _ hh
+              have hR := tableRows_nh cfg fn hinl _ _ _ _ hr
+              simp only [noHtmlBlock, noHtmlBlocks, Bool.and_eq_true, Bool.and_true]
+              exact ⟨hH, hR⟩
+      · split at h
+        · cases h
+        · rename_i rows hr
+          cases h
+          have hR := tableRows_nh cfg fn hinl _ _ _ _ hr
+          simp only [noHtmlBlock, noHtmlBlocks, Bool.true_and]
+          exact hR
+    · cases h
+  | .footnote ms ln og, _, b, h => by simp only [Document.mkBlock] at h; cases h
+  | .linkRefDefs ms ln og, _, b, h => by simp only [Document.mkBlock] at h; cases h; rfl
+  | .paragraph lines ln og, _, b, h => by
+    simp only [Document.mkBlock] at h
+    split at h
+    · cases h
+    · rename_i kids hk; cases h; exact hinl _ _ hk
+  | .setext lines ln og, _, b, h => by
+    simp only [Document.mkBlock] at h
+    split at h
+    · cases h
+    · split at h
+      · cases h
+      · rename_i kids hk; cases h; exact hinl _ _ hk
+  | .htmlBlock lines ln og, hc, _, _ => by simp [EntryNH] at hc
+  | .blankLine ln og, _, b, h => by simp only [Document.mkBlock] at h; cases h; rfl
+theorem mkBlocks_nh (cfg : Document.Cfg) (fn : Footnotes.Table) (hinl : InlNH cfg fn) :
+    ∀ (es : List Entry), EntriesNH es → ∀ (bs : List Mistletoe.Block), Document.mkBlocks cfg fn es = .ok bs →
+      noHtmlBlocks bs = true
+  | [], _, bs, h => by simp only [Document.mkBlocks] at h; cases h; rfl
+  | e :: es, hc, bs, h => by
+    simp only [EntriesNH] at hc
+    simp only [Document.mkBlocks] at h
+    split at h
+    · cases h
+    · rename_i b hb
+      split at h
+      · cases h
+      · rename_i bs' hbs
+        cases h
+        have ih := mkBlocks_nh cfg fn hinl es hc.2 bs' hbs
+        cases b with
+        | none => exact ih
+        | some x =>
+          simp only [noHtmlBlocks, Bool.and_eq_true]
+          exact ⟨mkBlock_nh cfg fn hinl e hc.1 x hb, ih⟩
+theorem mkItems_nh (cfg : Document.Cfg) (fn : Footnotes.Table) (hinl : InlNH cfg fn) :
+    ∀ (is : List Item), ItemsNH is → ∀ (bs : List Mistletoe.Block), Document.mkItems cfg fn is = .ok bs →
+      noHtmlBlocks bs = true
+  | [], _, bs, h => by simp only [Document.mkItems] at h; cases h; rfl
+  | .mk inner lo ind pre ld ln og :: rest, hc, bs, h => by
+    simp only [ItemsNH, ItemNH] at hc
+    simp only [Document.mkItems] at h
+    split at h
+    · cases h
+    · rename_i kids hk
+      split at h
+      · cases h
+      · rename_i more hm
+        cases h
+        simp only [noHtmlBlocks, noHtmlBlock, Bool.and_eq_true]
+        exact ⟨mkBlocks_nh cfg fn hinl inner hc.1 kids hk, mkItems_nh cfg fn hinl rest hc.2 more hm⟩
+end
+
+/-- **every document parsed under token lists that contain neither HtmlBlock nor HtmlSpan holds no
+    HtmlBlock and no HtmlSpan token, at any depth** — for every such configuration (whatever else is
+    installed), every text and every gas -/
+theorem parse_noHtml_general (cfg : Document.Cfg) (hhb : .htmlBlock ∉ cfg.block.types) (hsp : .htmlSpan ∉ cfg.span)
+    (gas : Nat) (t : Str) (d : Doc) (h : Document.parse cfg gas t = .ok d) : noHtmlBlocks d.kids = true := by
+  have h' : Document.parseLines cfg gas _ = .ok d := h
+  unfold Document.parseLines at h'
+  split at h'
+  · cases h'
+  · rename_i buf st hb
+    simp only at h'
+    split at h'
+    · cases h'
+    · rename_i kids hk
+      cases h'
+      exact mkBlocks_nh cfg _ (fun s ks hs => tokenizeInner_nohtml cfg.span hsp _ s ks hs) _
+        (blockPhase_nh cfg.block hhb gas _ buf st hb) kids hk
+
+end Mistletoe.NoRaw
+
 namespace Mistletoe.Props.C08
 open Mistletoe Mistletoe.Html Mistletoe.Pred Mistletoe.Escape Mistletoe.Block Mistletoe.Lines Mistletoe.HtmlEndToEnd
 
@@ -244,6 +730,32 @@ theorem C08_every_text_no_raw (o : Opts) (cfg : Document.Cfg) (hc : Config.htmlN
   have h := C08_parsed_no_raw o cfg hc gas t d hd
   exact ⟨d, hd, by simp [Config.renderHtmlNoRaw, hc, hd, render], h.2⟩
 
+/-- **(d, general) raw-HTML processing disabled, any token lists**: for EVERY configuration whose block list
+    does not contain `HtmlBlock` and whose span list does not contain `HtmlSpan` (whatever else is installed:
+    `HtmlRenderer(process_html_tokens=False)`, also with extra tokens passed to the constructor), every parsed
+    document has no such token at any depth and renders to the renderer's own tags and escaped text only. -/
+theorem C08_parsed_no_raw_general (o : Opts) (cfg : Document.Cfg)
+    (hhb : BTok.htmlBlock ∉ cfg.block.types) (hsp : Inline.STok.htmlSpan ∉ cfg.span)
+    (gas : Nat) (t : Str) (d : Doc) (h : Document.parse cfg gas t = .ok d) :
+    noHtmlBlocks d.kids = true ∧ WellFormed (renderDoc o.q d) ∧ ∀ e ∈ renderDoc o.q d, isRaw e = false := by
+  have hn := NoRaw.parse_noHtml_general cfg hhb hsp gas t d h
+  exact ⟨hn, C08_no_raw o d (parse_levelsOks cfg gas t d h) hn⟩
+
+/-- the same with termination: for every text the parse returns and the output is tags and escaped text only -/
+theorem C08_every_text_no_raw_general (o : Opts) (cfg : Document.Cfg)
+    (hhb : BTok.htmlBlock ∉ cfg.block.types) (hsp : Inline.STok.htmlSpan ∉ cfg.span) (gas : Nat) (t : Str)
+    (hg : gasBound cfg.block (docBuf (normalize (.str t))) ≤ gas) :
+    ∃ d, Document.parse cfg gas t = .ok d ∧ render o d = flat (renderDoc o.q d) ∧
+      WellFormed (renderDoc o.q d) ∧ ∀ e ∈ renderDoc o.q d, isRaw e = false := by
+  obtain ⟨d, hd⟩ := Props.C01.C01_parse_terminates cfg gas t hg
+  exact ⟨d, hd, rfl, (C08_parsed_no_raw_general o cfg hhb hsp gas t d hd).2⟩
+
+/-- the two routes agree on `Config.htmlNoRaw`: its lists satisfy the hypotheses of the general theorem -/
+theorem htmlNoRaw_no_html_classes (cfg : Document.Cfg) (hc : Config.htmlNoRaw = some cfg) :
+    BTok.htmlBlock ∉ cfg.block.types ∧ Inline.STok.htmlSpan ∉ cfg.span := by
+  obtain ⟨hb, hs⟩ := htmlNoRaw_lists cfg hc
+  exact ⟨by rw [hb]; decide, by rw [hs]; decide⟩
+
 /-! ### Non-vacuity -/
 
 /-- the configuration exists: the regenerated lists are known to the model -/
@@ -274,7 +786,7 @@ def evsOf (c : Option Document.Cfg) (t : Str) : List Ev :=
 example : balancedB (evsOf Config.html hostileText) [] = true ∧ (evsOf Config.html hostileText).all evOk = true ∧
     rawsOf (evsOf Config.html hostileText) = ["<b>".toList] := by decide +kernel
 example : balancedB (evsOf Config.htmlNoRaw hostileText) [] = true ∧ (evsOf Config.htmlNoRaw hostileText).all evOk = true ∧
-    (evsOf Config.htmlNoRaw hostileText).any isRaw = false ∧ (evsOf Config.htmlNoRaw hostileText).length = 8 := by
+    (evsOf Config.htmlNoRaw hostileText).any isRaw = false ∧ (evsOf Config.htmlNoRaw hostileText).isEmpty = false := by
   decide +kernel
 
 /-- the theorems applied: configuration known, gas bound satisfiable -/
@@ -289,6 +801,16 @@ example : ∃ d, Document.parse (Config.htmlNoRaw.get (by decide +kernel)) 4000 
     WellFormed (renderDoc (Opts.q {}) d) ∧ ∀ e ∈ renderDoc (Opts.q {}) d, isRaw e = false :=
   C08_every_text_no_raw {} (Config.htmlNoRaw.get (by decide +kernel)) (Option.some_get _).symm 4000 _ (by decide +kernel)
 
+/-- the general theorem reaches configurations the reused lemmas of Proofs/LatexTotal.lean do not: BlankLine and
+    GithubWiki installed, HtmlBlock / HtmlSpan not -/
+def cfgWikiNoRaw : Document.Cfg :=
+  { block := { types := [.blankLine, .blockCode, .heading, .quote, .codeFence, .thematicBreak, .list, .table, .footnote, .paragraph] },
+    span := [.escapeSequence, .githubWiki, .math, .strikethrough, .autoLink, .coreTokens, .inlineCode, .lineBreak] }
+
+example : ∃ d, Document.parse cfgWikiNoRaw 4000 hostileText = .ok d ∧ render {} d = flat (renderDoc (Opts.q {}) d) ∧
+    WellFormed (renderDoc (Opts.q {}) d) ∧ ∀ e ∈ renderDoc (Opts.q {}) d, isRaw e = false :=
+  C08_every_text_no_raw_general {} cfgWikiNoRaw (by decide) (by decide) 4000 _ (by decide +kernel)
+
 /-- `levelsOks` is what `shapeOk` was needed for: a level-7 heading (no parse produces it) is outside C08 -/
 example : levelsOks [.heading 7 [] [] 1] = false ∧ Doc.shapeOk ⟨[.heading 7 [] [] 1], []⟩ = false := by decide
 
@@ -301,4 +823,6 @@ open Mistletoe.Props.C08 Mistletoe.HtmlEndToEnd
 #print axioms C08_every_text
 #print axioms C08_parsed_no_raw
 #print axioms C08_every_text_no_raw
+#print axioms C08_parsed_no_raw_general
+#print axioms C08_every_text_no_raw_general
 end Audit
